@@ -14,7 +14,7 @@ ASSUMPTIONS = ["planar metric, InMemMap; graphs <= 12 nodes, traces <= 12 points
                "the 'empty iff no admissible start' clause uses an independent full scan; cases where open finding F1 can hide a start "
                "candidate are excluded from that clause only, and counted"]
 TOLERANCES = {"threshold_band": hmmref.BAND}
-BUDGET = {"quick": {"shards": 8, "examples": 700}, "thorough": {"shards": 16, "examples": 12000}}
+BUDGET = {"quick": {"shards": 8, "examples": 1200}, "thorough": {"shards": 16, "examples": 12000}}
 FUZZ = {"thorough": {"runs": 15000, "seed_inputs": 16, "max_len": 4096,
                      "include": ("leuvenmapmatching.matcher", "leuvenmapmatching.util", "leuvenmapmatching.map")}}
 
